@@ -29,7 +29,12 @@ fn rand_print_cmd(rng: &mut Rng) -> ScriptLine {
         _ => PrintWhat::Range(5 + rng.below(100) as u32, rng.below(5) as u32), // backwards
     };
     let radix = *rng.pick(&[Radix::Dec, Radix::Dec, Radix::Hex, Radix::Bin]);
-    ScriptLine::print_radix(what, rng.chance(1, 4), radix)
+    let mut l = ScriptLine::print_radix(what, rng.chance(1, 4), radix);
+    // one command in six is padded with blanks that are not ASCII (the line is trimmed as Unicode text)
+    if rng.chance(1, 6) {
+        l.raw = format!("\u{a0}{}\u{3000} ", l.raw);
+    }
+    l
 }
 
 /// a prompt script: mostly next, some prints and garbage, optionally cut short or ended by quit
@@ -658,6 +663,24 @@ pub fn gen_driver(prop: &str, rng: &mut Rng, sh: &mut Shards, out: &str, thoroug
                  Item::Proc { name: "q4".into(), body: vec![Item::Ins(Ins::Call { name: "q3".into(), target: 0 }), Item::Ins(Ins::Call { name: "q2".into(), target: 0 })] },
                  Item::Label("start".into()), Item::Ins(Ins::Call { name: "q4".into(), target: 0 }), Item::Ins(Ins::Call { name: "q4".into(), target: 0 }), Item::Ins(Ins::Print { what: PrintWhat::Reg })],
         ];
+        // every repeat prefix with its string instruction on the next line (and a comment after the prefix), stepped
+        // and not: prompts and messages cite the line the instruction starts on
+        for (op, rep, repmn) in crate::checks2::STR_COMBOS.iter().filter(|c| !c.1.is_empty()) {
+            for (interp, comment) in [(true, 0u64), (true, 8), (false, 8)] {
+                let items = vec![
+                    Item::Label("start".into()),
+                    Item::Ins(Ins::Mov { w: 16, dst: Opnd::Reg16("cx"), src: Opnd::Imm(2) }),
+                    Item::Ins(Ins::Mov { w: 16, dst: Opnd::Reg16("si"), src: Opnd::Imm(0x4000) }),
+                    Item::Ins(Ins::Mov { w: 16, dst: Opnd::Reg16("di"), src: Opnd::Imm(0x4010) }),
+                    Item::Ins(Ins::Str { op, w: 8, rep, repmn }),
+                    Item::Ins(Ins::Print { what: PrintWhat::Reg }),
+                ];
+                let mut lay = Layout::plain();
+                lay.split_every = true;
+                lay.comment = comment;
+                progs.push((Program { data: Vec::new(), items, interp, stdin: nexts(rng, 12), note: format!("split-{}-{}", repmn, op) }, lay));
+            }
+        }
         for (i, s) in shapes.iter().enumerate() {
             for interp in [false, true] {
                 for nl in [true, false] {
@@ -693,7 +716,7 @@ pub fn gen_driver(prop: &str, rng: &mut Rng, sh: &mut Shards, out: &str, thoroug
     }
 }
 
-pub const MUTATIONS: usize = 22;
+pub const MUTATIONS: usize = 23;
 
 fn all_ins_mut<'a>(items: &'a mut Vec<Item>, out: &mut Vec<&'a mut Ins>) {
     for it in items.iter_mut() {
@@ -857,6 +880,20 @@ pub fn mutate(base: &Program, m: usize, rng: &mut Rng) -> Option<Program> {
             } else {
                 p.items.push(Item::Ins(Ins::Print { what: PrintWhat::Span(0xFFFF0, 0x10) }));
             }
+        }
+        22 => {
+            // a jump / loop whose target is the name of a procedure (procedures and labels are different name spaces)
+            let pname = p.items.iter().find_map(|x| match x { Item::Proc { name, .. } => Some(name.clone()), _ => None });
+            let pname = match pname {
+                Some(n) => n,
+                None => {
+                    // define one before start
+                    let pos = p.items.iter().position(|x| matches!(x, Item::Label(n) if n == "start"))?;
+                    p.items.insert(pos, Item::Proc { name: "tick_p".into(), body: vec![Item::Ins(Ins::UnArith { op: "inc", w: 16, dst: Opnd::Reg16("ax") })] });
+                    "tick_p".to_string()
+                }
+            };
+            p.items.push(Item::Bad(Ins::Jcc { mn: *rng.pick(&["jmp", "jnz", "loop", "jcxz", "loopne"]), label: pname, target: 0 }, String::new()));
         }
         _ => {
             // `start` defined as a data label only
